@@ -1,4 +1,5 @@
 pub mod c01;
+pub mod c02;
 pub mod c03;
 pub mod c04;
 pub mod c05;
@@ -6,6 +7,8 @@ pub mod c06;
 pub mod c07;
 pub mod c08;
 pub mod c10;
+pub mod c11;
+pub mod c12;
 pub mod c13;
 pub mod c14;
 pub mod c15;
@@ -22,6 +25,7 @@ pub fn dispatch(name: &str, args: &[String]) -> i32 {
 	match name {
 		"selftest" => selftest::run(args),
 		"c01" => c01::run(args),
+		"c02" => c02::run(args),
 		"c03" => c03::run(args),
 		"c04" => c04::run(args),
 		"c05" => c05::run(args),
@@ -29,6 +33,8 @@ pub fn dispatch(name: &str, args: &[String]) -> i32 {
 		"c07" => c07::run(args),
 		"c08" => c08::run(args),
 		"c10" => c10::run(args),
+		"c11" => c11::run(args),
+		"c12" => c12::run(args),
 		"c13" => c13::run(args),
 		"c14" => c14::run(args),
 		"c15" => c15::run(args),
@@ -58,6 +64,7 @@ fn replay(args: &[String]) -> i32 {
 	println!("replaying {} — {}", v["key"], v["what"]);
 	match prop.as_str() {
 		"c01" => c01::replay(&v["replay"]),
+		"c02" => c02::replay(&v["replay"]),
 		"c03" => c03::replay(&v["replay"]),
 		"c04" => c04::replay(&v["replay"]),
 		"c05" => c05::replay(&v["replay"]),
@@ -65,6 +72,8 @@ fn replay(args: &[String]) -> i32 {
 		"c07" => c07::replay(&v["replay"]),
 		"c08" => c08::replay(&v["replay"]),
 		"c10" => c10::replay(&v["replay"]),
+		"c11" => c11::replay(&v["replay"]),
+		"c12" => c12::replay(&v["replay"]),
 		"c13" => c13::replay(&v["replay"]),
 		"c14" => c14::replay(&v["replay"]),
 		"c15" => c15::replay(&v["replay"]),
